@@ -752,6 +752,12 @@ fn do_op(sys: &mut Sys, prog: &mut Prog, st: &mut Stats, g: &mut Gen, op: Op, cn
     let max = sys.max;
     let fault = g.fault;
     let droplen = if let Op::Drop(a, _) = &op { sys.ghost.out.iter().find(|x| x.0 == *a).map_or(0, |x| x.1) } else { 0 };
+    // a patch position is drawn for the range the generator had in mind; the page that is actually outstanding
+    // at this offset may be a shorter one (an earlier write() of the same offset): keep the position inside it
+    let op = match op {
+        Op::Drop(a, DropData::Patch(j, v)) if droplen > 0 => Op::Drop(a, DropData::Patch(j % droplen as usize, v)),
+        o => o,
+    };
     let mut gh = sys.ghost.clone();
     if !gh.step(ps, &op, droplen) {
         return;
